@@ -38,6 +38,9 @@ package httpio
 //@   ghost waited : Bool = false
 //@   ghost handedOver : Bool = false
 //@   at ret github.com/google/uuid.Parse: let uid = $result0
+//@   ghost perr : U = nil
+//@   at ret github.com/google/uuid.Parse: set perr = $result1
+//@   at call net/http.Error: assert error-reply-only-for-unparsable-ids: perr != nil && $2 == 400 [C20]
 //@   at maplookup var:readers: assert rendezvous-by-upload-id: $key == uid [C20]
 //@   at maplookup var:readers: let found = $ok
 //@   at maplookup var:readers: let existing = $val
